@@ -674,4 +674,101 @@ theorem execTop_flat (lab : Nat → Label) (n : Nat) (script : List Act) : ∀ (
     rw [Acc.run_append, Acc.flags_append, ← h1, ← h2, ← h3, ← h4]
     exact ⟨rfl, rfl⟩
 
+/-! ## Part D — state round trip of the connections -/
+
+theorem mem_firingOrder (w : Wiring) (sigs : List Sig) (p : Sig × Recv) :
+    p ∈ w.firingOrder sigs ↔ p.1 ∈ sigs ∧ p.2 ∈ w.out p.1 := by
+  induction sigs with
+  | nil => simp [Wiring.firingOrder]
+  | cons u us ih =>
+    obtain ⟨ps, pr⟩ := p
+    simp only [Wiring.firingOrder, List.mem_append, List.mem_map, Prod.mk.injEq, ih, List.mem_cons]
+    constructor
+    · rintro (⟨r, hr, rfl, rfl⟩ | ⟨h1, h2⟩)
+      · exact ⟨Or.inl rfl, hr⟩
+      · exact ⟨Or.inr h1, h2⟩
+    · rintro ⟨rfl | h1, h2⟩
+      · exact Or.inl ⟨pr, h2, rfl, rfl⟩
+      · exact Or.inr ⟨h1, h2⟩
+
+theorem savedFor_firingOrder (w : Wiring) (sigs : List Sig) (hn : sigs.Nodup) (s : Sig) (hs : s ∈ sigs) :
+    savedFor (w.firingOrder sigs) s = w.out s := by
+  induction sigs with
+  | nil => simp at hs
+  | cons t rest ih =>
+    have hn' := List.nodup_cons.1 hn
+    simp only [Wiring.firingOrder, savedFor, List.filter_append, List.map_append]
+    by_cases hts : t = s
+    · subst hts
+      have h1 : ((w.out t).map (fun r => (t, r))).filter (fun p => p.1 == t) = (w.out t).map (fun r => (t, r)) := by
+        apply List.filter_eq_self.2
+        intro p hp
+        obtain ⟨r, _, rfl⟩ := List.mem_map.1 hp
+        simp
+      have h2 : (w.firingOrder rest).filter (fun p => p.1 == t) = [] := by
+        apply List.filter_eq_nil_iff.2
+        intro p hp he
+        have h3 : p.1 = t := by simpa using he
+        exact hn'.1 (h3 ▸ ((mem_firingOrder w rest p).1 hp).1)
+      rw [h1, h2]
+      simp only [List.map_map, List.map_nil, List.append_nil]
+      simp [Function.comp_def]
+    · have hs' : s ∈ rest := by
+        rcases List.mem_cons.1 hs with h | h
+        · exact absurd h.symm hts
+        · exact h
+      have h1 : ((w.out t).map (fun r => (t, r))).filter (fun p => p.1 == s) = [] := by
+        apply List.filter_eq_nil_iff.2
+        intro p hp
+        obtain ⟨r, _, rfl⟩ := List.mem_map.1 hp
+        simp [hts]
+      rw [h1]
+      simpa [savedFor] using ih hn'.2 hs'
+
+theorem reorder_same (saved cur : List Recv) (h1 : ∀ r, r ∈ saved ↔ r ∈ cur) : reorder saved cur = saved := by
+  unfold reorder
+  have a : saved.filter (fun r => cur.contains r) = saved :=
+    List.filter_eq_self.2 (fun r hr => by simpa using (h1 r).1 hr)
+  have b : cur.filter (fun r => !saved.contains r) = [] :=
+    List.filter_eq_nil_iff.2 (fun r hr => by simpa using (h1 r).2 hr)
+  rw [a, b, List.append_nil]
+
+
+theorem roundtrip_w1 (w : Wiring) (hm : w.Mir) (children : List Nat)
+    (hc : ∀ s r, r ∈ w.out s → r.node ∈ children) :
+    (Wiring.empty.connectAll (w.runPairs children).reverse).Mir ∧
+    ∀ s r, r ∈ (Wiring.empty.connectAll (w.runPairs children).reverse).out s ↔ r ∈ w.out s := by
+  obtain ⟨h1, h2⟩ := Wiring.connectAll_spec (w.runPairs children).reverse Wiring.empty Wiring.empty_mir
+  refine ⟨h1, fun s r => ?_⟩
+  rw [h2, List.mem_reverse, Wiring.mem_runPairs, ← hm s r]
+  simp only [Wiring.empty, List.not_mem_nil, false_or]
+  exact ⟨fun h => h.2, fun h => ⟨hc s r h, h⟩⟩
+
+/-- the round trip as it is gives every emitter its list back, in order, and every receiver the same set of emitters -/
+theorem roundtrip_spec (w : Wiring) (hm : w.Mir) (children : List Nat) (sigs : List Sig) (hn : sigs.Nodup)
+    (hc : ∀ s r, r ∈ w.out s → r.node ∈ children ∧ s ∈ sigs) :
+    (∀ s, (w.roundtrip false children sigs).out s = w.out s) ∧
+    (∀ r s, s ∈ (w.roundtrip false children sigs).inList r ↔ s ∈ w.inList r) := by
+  obtain ⟨hm1, hmem⟩ := roundtrip_w1 w hm children (fun s r h => (hc s r h).1)
+  constructor
+  · intro s
+    simp only [Wiring.roundtrip, Bool.false_eq_true, ↓reduceIte]
+    by_cases hs : s ∈ sigs
+    · have : sigs.contains s = true := by simpa using hs
+      simp only [this, ↓reduceIte]
+      rw [savedFor_firingOrder w sigs hn s hs]
+      exact reorder_same _ _ (fun r => (hmem s r).symm)
+    · have : sigs.contains s = false := by simpa using hs
+      simp only [this, Bool.false_eq_true, ↓reduceIte]
+      have e1 : w.out s = [] := List.eq_nil_iff_forall_not_mem.2 (fun r hr => hs (hc s r hr).2)
+      rw [e1]
+      exact List.eq_nil_iff_forall_not_mem.2 (fun r hr => by
+        have := (hmem s r).1 hr
+        rw [e1] at this
+        cases this)
+  · intro r s
+    have : (w.roundtrip false children sigs).inList r = (Wiring.empty.connectAll (w.runPairs children).reverse).inList r := by
+      simp [Wiring.roundtrip, Wiring.inList]
+    rw [this, ← hm1 s r, hmem s r, hm s r]
+
 end PwVerif.Signal
